@@ -149,10 +149,18 @@ func Created() int { clock.mu.Lock(); defer clock.mu.Unlock(); return clock.seq 
 // Advance moves the clock forward by d, firing every timer that becomes due,
 // one at a time in deadline order (ties: arming order), at its own deadline;
 // settle is called after each firing and at the end.
-func Advance(d Duration, settle func()) {
+func Advance(d Duration, settle func()) { AdvanceN(d, settle, -1) }
+
+// AdvanceN is Advance, but gives up (leaving the clock at the last firing)
+// after max firings if max >= 0.  It returns the number of timers fired.
+func AdvanceN(d Duration, settle func(), max int) (fired int) {
 	clock.mu.Lock()
 	target := clock.now.Add(d)
 	for {
+		if max >= 0 && fired >= max {
+			clock.mu.Unlock()
+			return fired
+		}
 		var next *Timer
 		for t := range clock.timers {
 			if !t.active || t.when.After(target) {
@@ -170,6 +178,7 @@ func Advance(d Duration, settle func()) {
 		}
 		next.active = false
 		delete(clock.timers, next)
+		fired++
 		f, c, now := next.f, next.c, clock.now
 		clock.mu.Unlock()
 		if nil != f {
@@ -190,4 +199,61 @@ func Advance(d Duration, settle func()) {
 	if nil != settle {
 		settle()
 	}
+	return fired
 }
+
+// Ticker is the virtual counterpart of time.Ticker.
+type Ticker struct {
+	C <-chan Time
+	c chan Time
+	d Duration
+	t *Timer
+}
+
+// NewTicker is time.NewTicker on the virtual clock: a tick every d of virtual
+// time, dropped (as the real one does) when the previous one was not taken.
+func NewTicker(d Duration) *Ticker {
+	if d <= 0 {
+		panic("non-positive interval for NewTicker")
+	}
+	c := make(chan Time, 1)
+	k := &Ticker{C: c, c: c, d: d}
+	k.t = AfterFunc(d, k.tick)
+	return k
+}
+
+func (k *Ticker) tick() {
+	select {
+	case k.c <- Now():
+	default:
+	}
+	clock.mu.Lock()
+	defer clock.mu.Unlock()
+	if nil != k.t {
+		arm(k.t, k.d)
+	}
+}
+
+// Stop turns the ticker off.
+func (k *Ticker) Stop() {
+	clock.mu.Lock()
+	defer clock.mu.Unlock()
+	if nil != k.t {
+		k.t.active = false
+		delete(clock.timers, k.t)
+		k.t = nil
+	}
+}
+
+// Reset changes the period.
+func (k *Ticker) Reset(d Duration) {
+	clock.mu.Lock()
+	defer clock.mu.Unlock()
+	k.d = d
+	if nil != k.t {
+		arm(k.t, d)
+	}
+}
+
+// Tick is time.Tick on the virtual clock.
+func Tick(d Duration) <-chan Time { return NewTicker(d).C }
